@@ -241,7 +241,7 @@ func (d *Dialer[T]) Dial(ctx context.Context, network, addr string, tc *tls.Conf
 				if needECH && target.resolved.ECH != nil {
 					tc.EncryptedClientHelloConfigList = target.resolved.ECH
 				}
-				if d.RequireECH && tc.EncryptedClientHelloConfigList == nil {
+				if d.RequireECH && len(tc.EncryptedClientHelloConfigList) == 0 {
 					sendErr(fmt.Errorf("%s: unable to get ECH config list", target.host))
 					continue
 				}
